@@ -26,7 +26,13 @@ func init() {
 	register(&Property{ID: "C22", Run: runC22, Mutants: []Mutant{
 		{Name: "Apply copies the gap up to the edit's end instead of its start", File: "internal/lsp/diff/diff.go", Old: "\t\tout = append(out, src[lastEnd:start]...)", New: "\t\tout = append(out, src[lastEnd:end]...)", Expect: "origin-agreement :: diff.ApplyBytes"},
 		{Name: "validate accepts overlapping edits", File: "internal/lsp/diff/diff.go", Old: "\t\tif !(0 <= edit.Start && edit.Start <= edit.End && edit.End <= len(src)) {", New: "\t\tif !(0 <= edit.Start && edit.End <= len(src)) {", Expect: "origin-agreement :: diff.validate"},
-		{Name: "rune offsets converted with the wrong base", File: "internal/lsp/diff/ndiff.go", Old: "\t\tlastEnd = end", New: "\t\tlastEnd = start", Expect: "origin-agreement"},
+		{Name: "edit start looked up in the target text's offset table", File: "internal/lsp/diff/ndiff.go", Old: "Edit{boffs[d.Start], boffs[d.End],", New: "Edit{aoffs[d.Start], boffs[d.End],", Expect: "rune-offsets-from-source :: edits diffRunes"},
+		{Name: "replacement cut out with the deleted range's indices", File: "internal/lsp/diff/ndiff.go", Old: "after[aoffs[d.ReplStart]:aoffs[d.ReplEnd]]", New: "after[aoffs[d.ReplStart]:aoffs[d.End]]", Expect: "rune-offsets-from-source :: edits diffRunes"},
+		{Name: "decoder advances by the re-encoded length", File: "internal/lsp/diff/ndiff.go", Old: "\t\ti += sz\n", New: "\t\ti += utf8.RuneLen(r)\n", Expect: "rune-offsets-from-source :: decoder decodeRunes"},
+		{Name: "offset table not closed with len(text)", File: "internal/lsp/diff/ndiff.go", Old: "\toffs = append(offs, len(text))\n", New: "", Expect: "rune-offsets-from-source :: decoder decodeRunes"},
+		{Name: "a literal U+FFFD treated as an invalid byte", File: "internal/lsp/diff/ndiff.go", Old: "if r == utf8.RuneError && sz == 1 {", New: "if r == utf8.RuneError {", Expect: "rune-offsets-from-source :: decoder decodeRunes"},
+		{Name: "invalid bytes all get the same value", File: "internal/lsp/diff/ndiff.go", Old: "r = invalidRune + rune(text[i])", New: "r = invalidRune + rune(sz)", Expect: "rune-offsets-from-source :: decoder decodeRunes"},
+		{Name: "Strings passes the texts swapped", File: "internal/lsp/diff/ndiff.go", Old: "return diffRunes(before, after)", New: "return diffRunes(after, before)", Expect: "rune-offsets-from-source :: caller Strings"},
 		{Name: "isASCIIByte treats 0x80 as ASCII", File: "internal/lsp/diff/ndiff.go", Old: "func isASCIIByte(s []byte) bool {\n\tfor i := 0; i < len(s); i++ {\n\t\tif s[i] >= utf8.RuneSelf {", New: "func isASCIIByte(s []byte) bool {\n\tfor i := 0; i < len(s); i++ {\n\t\tif s[i] > utf8.RuneSelf {", Expect: "ascii-test"},
 		{Name: "lcs: forward search compares the wrong diagonal", File: "internal/lsp/diff/lcs/old.go", Old: "e.setForward(D, k, x)", New: "e.setForward(D, k+1, x)", Expect: "origin-agreement"},
 	}})
@@ -49,6 +55,7 @@ func goListDir(pkg string) string {
 func runC22(c *Ctx) {
 	c.Explain = "Decides agreement of internal/lsp/diff and internal/lsp/diff/lcs with the package they were copied from, golang.org/x/tools/internal/diff at the version the checker is built against (v0.29.0, read from the module cache): every function whose canonical syntax tree (positions, comments, parentheses normalised) equalled the origin's when the rule was armed (frozen list c22_origin.txt) is still equal; " +
 		"diff.Bytes equals the origin's up to the name of the ASCII test; the fork's two ASCII tests return false exactly for inputs containing a byte >= 0x80 (guard evaluated over all 256 byte values). " +
+		"The non-ASCII path (diffRunes and its decoder) is wa-lang/wa's own code since the invalid-UTF-8 repair and is decided structurally (rule rune-offsets-from-source): the decoder records the byte offset of every rune (offset = loop position, advance = decoded size, table closed with len(text)) and gives each invalid byte its own value above utf8.MaxRune; each Edit takes Start/End from the first text's table at d.Start/d.End and cuts New out of the second text with its table at d.ReplStart/d.ReplEnd; callers pass (before, after) in order. " +
 		"That Apply(before, Strings(before, after)) == after for every pair of texts is a property of the origin's algorithm, which this check does not re-establish: it decides that the copy is still that algorithm. NOT decided: the algorithm itself."
 	c.Trusted = []string{"go/packages, go/parser", "golang.org/x/tools v0.29.0 internal/diff sources in the module cache as the origin"}
 	p := c.Load(LoadOpt{Light: true}, "./internal/lsp/diff", "./internal/lsp/diff/lcs")
@@ -124,10 +131,11 @@ func runC22(c *Ctx) {
 	for _, k := range missing {
 		c.Undecided(rule, k, "", "the frozen instance no longer resolves on both sides (function renamed or removed): it is not being compared any more")
 	}
-	c.Min(rule, "frozen functions", n, 60)
+	c.Min(rule, "frozen functions", n, 55)
 
 	// the fork's ASCII tests
 	if pk := p.Pkg("internal/lsp/diff"); pk != nil {
+		c22RunePath(c, p, pk)
 		info := pk.TypesInfo
 		for _, name := range []string{"isASCII", "isASCIIByte"} {
 			fd := p.MustFunc("ascii-test", pk, name)
